@@ -94,6 +94,21 @@ def run(ctx: RunCtx) -> None:
             c.beh.cancel_raises = True
     legs.install_world([svc], calls)
     level = [logging.INFO, logging.DEBUG][ch.choose(2, "loglevel")]
+    # the wall clock of log records is a seam too: every vgi_rpc record gets its creation time from the tape, with sub-second
+    # parts on both sides of the millisecond and second boundaries (the timestamp is rendered from it)
+    old_factory = logging.getLogRecordFactory()
+    nrec = [0]
+
+    def record_factory(*a: Any, **kw: Any) -> logging.LogRecord:
+        rec = old_factory(*a, **kw)
+        if rec.name.startswith("vgi_rpc"):
+            nrec[0] += 1
+            frac = [0.0, 0.25, 0.0004, 0.0006, 0.4994, 0.4996, 0.9994, 0.99951, 0.999999][ch.choose(9, "log.clock")]
+            rec.created = 1_700_000_000 + 61 * nrec[0] + frac
+            rec.msecs = (rec.created - int(rec.created)) * 1000.0
+        return rec
+
+    logging.setLogRecordFactory(record_factory)
     try:
         shapes = [shape(svc, c) for c in calls]
         kind = s1.KINDS[ch.choose(len(s1.KINDS), "pipe.kind")]
@@ -205,4 +220,5 @@ def run(ctx: RunCtx) -> None:
                               f"{c.method}: error_message has {len(got)} chars, the server-side message has {len(want)}")
                 return
     finally:
+        logging.setLogRecordFactory(old_factory)
         rt.set_world(None)
